@@ -64,6 +64,9 @@ func structFields(t types.Type) ([]*types.Var, bool) {
 // a value whose methods are given from outside: of a type parameter, or of an interface type
 // (other than error) with at least one method
 func isAbstractType(t types.Type) bool {
+	if _, ok := valueTypeParam(t); ok {
+		return false
+	}
 	if _, ok := t.(*types.TypeParam); ok {
 		return true
 	}
@@ -86,6 +89,7 @@ type absMethod struct {
 type absRoot struct {
 	v       *types.Var
 	methods []*absMethod // sorted by path
+	poke    bool         // windows into its memory are stored into: the poke operation is a parameter (ext3b.go)
 }
 
 func (r *absRoot) stName() string { return "St_" + r.v.Name() }
@@ -141,22 +145,28 @@ func (c *fctx) absPath(e ast.Expr) (*absRoot, string) { return absPathOf(c.f, c.
 
 // binders / arguments that stand for the abstract objects of f
 func (c *fctx) absBinders(f *fnInfo) []string {
-	var bs []string
+	bs := f.typeParamBinders()
 	for _, r := range f.abs {
 		bs = append(bs, fmt.Sprintf("(%s : Type)", r.stName()))
 		for _, m := range r.methods {
 			bs = append(bs, fmt.Sprintf("(%s : %s)", r.mName(m.path), c.methodType(r, m)))
+		}
+		if r.poke {
+			bs = append(bs, fmt.Sprintf("(%s : %s -> Z -> bytes -> res %s)", r.pokeName(), r.stName(), r.stName()))
 		}
 	}
 	return bs
 }
 
 func (c *fctx) absArgs(f *fnInfo) []string {
-	var as []string
+	as := f.typeParamArgs()
 	for _, r := range f.abs {
 		as = append(as, r.stName())
 		for _, m := range r.methods {
 			as = append(as, r.mName(m.path))
+		}
+		if r.poke {
+			as = append(as, r.pokeName())
 		}
 	}
 	return as
@@ -169,11 +179,22 @@ func (c *fctx) methodType(r *absRoot, m *absMethod) string {
 		c.failf(c.f.decl, "variadic method %s of an abstract object", m.path)
 	}
 	parts := []string{r.stName()}
-	for i := 0; i < sig.Params().Len(); i++ {
-		parts = append(parts, c.coqType(c.f.decl, sig.Params().At(i).Type()))
-	}
 	rts := []string{r.stName()}
+	for i := 0; i < sig.Params().Len(); i++ {
+		pt := sig.Params().At(i).Type()
+		if isAbstractType(pt) {
+			continue // an interface-typed parameter: only the literal nil is handed to it (callAbstract)
+		}
+		parts = append(parts, c.coqType(c.f.decl, pt))
+		if methodStoresInto(m.fn, i) {
+			rts = append(rts, "bytes") // the final contents of the []byte argument
+		}
+	}
 	for i := 0; i < sig.Results().Len(); i++ {
+		if i == 0 && isRegionMethod(m.fn) {
+			rts = append(rts, "gregion")
+			continue
+		}
 		rts = append(rts, c.coqType(c.f.decl, sig.Results().At(i).Type()))
 	}
 	return strings.Join(parts, " -> ") + " -> res (" + strings.Join(rts, " * ") + ")"
@@ -195,21 +216,45 @@ func (c *fctx) callAbstract(x *ast.CallExpr, root *absRoot, path string, fn *typ
 	}
 	sig := m.fn.Type().(*types.Signature)
 	var args []string
+	var mpats, post []string
 	for i, a := range x.Args {
-		p, t := c.exprAs(a, sig.Params().At(i).Type())
+		pt := sig.Params().At(i).Type()
+		if isAbstractType(pt) {
+			if !isNilIdent(c.info, a) {
+				c.failf(a, "argument for the interface-typed parameter of the method %s must be the literal nil", path)
+			}
+			continue
+		}
+		if methodStoresInto(m.fn, i) {
+			pp, arg, pat, po := c.mutSliceArg(a)
+			pre = append(pre, pp...)
+			args = append(args, arg)
+			mpats = append(mpats, pat)
+			post = append(post, po...)
+			continue
+		}
+		if c.isMutatedParam(a) {
+			c.failf(a, "a []byte that is stored into is handed to the method %s, which is not known to store into it (mutatingMethods)", path)
+		}
+		p, t := c.exprAs(a, pt)
 		pre = append(pre, p...)
 		args = append(args, t)
 	}
 	c.noteMut(x)
+	if c.f.nilable[root.v] && path == sel0(path) {
+		// a method call through a nil interface value panics (after the arguments were evaluated)
+		pre = append(pre, fmt.Sprintf("do _ <- gptr_check %s;", c.readVar(c.absNilName(root.v))))
+	}
 	st := c.nameOf(root.v)
 	cur := c.readVar(st)
-	pats := []string{c.assignVar(st)}
+	pats := append([]string{c.assignVar(st)}, mpats...)
 	for i := 0; i < sig.Results().Len(); i++ {
 		t := c.fresh()
 		pats = append(pats, t)
 		terms = append(terms, t)
 	}
 	pre = append(pre, fmt.Sprintf("do %s <- %s;", tuple(pats), strings.TrimSpace(root.mName(path)+" "+cur+" "+strings.Join(args, " "))))
+	pre = append(pre, post...)
 	return pre, terms
 }
 
@@ -231,6 +276,9 @@ func (c *fctx) varCoqType(n ast.Node, v *cvar) string {
 	}
 	if r := c.f.absOf(v.root); r != nil {
 		return r.stName()
+	}
+	if rv, ok := v.root.(*types.Var); ok && c.f.regionOf[rv] != nil {
+		return "gregion"
 	}
 	if e, ok := ptrElem(v.root.Type()); ok {
 		return c.coqType(n, e)
@@ -254,7 +302,7 @@ func (c *fctx) fieldVar(x *ast.SelectorExpr) (string, bool) {
 	if c.f.absOf(o) != nil {
 		return "", false
 	}
-	if _, isStruct := structFields(o.Type()); !isStruct && o != c.f.recvStruct {
+	if _, isStruct := structFields(o.Type()); !isStruct && o != c.f.recvStruct && !c.f.elemView[o] {
 		return "", false
 	}
 	fv, ok := c.info.Uses[x.Sel].(*types.Var)
@@ -290,6 +338,9 @@ func (c *fctx) resultNames(r *types.Var) []string {
 }
 
 func (c *fctx) resultTypes(n ast.Node, r *types.Var) []string {
+	if c.f.regionOf[r] != nil {
+		return []string{"gregion"}
+	}
 	if fs, ok := structFields(r.Type()); ok {
 		var ts []string
 		for _, fv := range fs {
@@ -619,17 +670,61 @@ func (c *fctx) callTranslated(x *ast.CallExpr, callee *fnInfo) (pre []string, te
 			c.failf(x, "call of %s, which returns a struct", callee.obj.FullName())
 		}
 	}
-	if callee.recvStruct != nil {
-		c.failf(x, "call of %s, a method of a pointer to a struct with fields", callee.obj.FullName())
+	if len(callee.typeParams) > 0 {
+		c.failf(x, "call of %s, a method of a generic type", callee.obj.FullName())
 	}
+	sameRecv := c.sameRecvCall(x, callee)
+	if callee.recvStruct != nil && !sameRecv {
+		c.failf(x, "call of %s, a method of a pointer to a struct with fields (only p.M(...) for the caller's own receiver p is translated)", callee.obj.FullName())
+	}
+	c.checkNoAliasArgs(x, callee)
 	var head []string
 	var args []string
 	var pats []string
+	var post []string
+	var recvArgs []string
+	if sameRecv {
+		// p.M(...) for the caller's own pointer receiver p: the callee gets the nil flag and the
+		// current fields, its final fields are the caller's afterwards (a method call through a nil
+		// pointer is not itself a panic)
+		c.noteMut(x)
+		recvArgs = append(recvArgs, c.readVar(c.isnilName()))
+		for _, fv := range callee.recvFields {
+			n := c.fieldName(c.f.recvStruct, fv)
+			recvArgs = append(recvArgs, c.readVar(n))
+			pats = append(pats, c.assignVar(n))
+		}
+	}
 	// which of the caller's abstract objects each abstract object of the callee is
-	absArg := func(calleeRoot *absRoot, e ast.Expr) string {
+	absArg := func(calleeRoot *absRoot, e ast.Expr) []string {
+		if id, ok := ast.Unparen(e).(*ast.Ident); ok {
+			if _, isNil := c.info.Uses[id].(*types.Nil); isNil {
+				// the nil interface value: no state, every method call panics (the callee tests its flag)
+				if !callee.nilable[calleeRoot.v] {
+					c.failf(e, "nil handed to the abstract object %s of %s, which is never compared with nil", calleeRoot.v.Name(), callee.obj.Name())
+				}
+				head = append(head, "unit")
+				for _, m := range calleeRoot.methods {
+					n := 1 + m.fn.Type().(*types.Signature).Params().Len()
+					head = append(head, "(fun "+strings.TrimSpace(strings.Repeat("_ ", n))+" => Panic 5)")
+				}
+				if calleeRoot.poke {
+					head = append(head, "(fun _ _ _ => Panic 5)")
+				}
+				pats = append(pats, "_")
+				return []string{"true", "tt"}
+			}
+		}
 		root, path := c.absPath(e)
 		if root == nil {
 			c.failf(e, "argument for the abstract object %s must be an abstract object of the caller", calleeRoot.v.Name())
+		}
+		var flag []string
+		if callee.nilable[calleeRoot.v] {
+			if !c.f.nilable[root.v] || path != "" {
+				c.failf(e, "internal: %s is handed to a parameter that is compared with nil but has no nil flag", root.v.Name())
+			}
+			flag = []string{c.readVar(c.absNilName(root.v))}
 		}
 		head = append(head, root.stName())
 		for _, m := range calleeRoot.methods {
@@ -645,11 +740,17 @@ func (c *fctx) callTranslated(x *ast.CallExpr, callee *fnInfo) (pre []string, te
 			}
 			head = append(head, root.mName(full))
 		}
+		if calleeRoot.poke {
+			if !root.poke || path != "" {
+				c.failf(e, "internal: the poke operation of %s is not a parameter", root.v.Name())
+			}
+			head = append(head, root.pokeName())
+		}
 		c.noteMut(x)
 		st := c.nameOf(root.v)
 		cur := c.readVar(st)
 		pats = append(pats, c.assignVar(st))
-		return cur
+		return append(flag, cur)
 	}
 	var recvArg string
 	if callee.recv != nil {
@@ -657,7 +758,7 @@ func (c *fctx) callTranslated(x *ast.CallExpr, callee *fnInfo) (pre []string, te
 		if !ok {
 			c.failf(x, "call of the method %s without a receiver expression", callee.obj.FullName())
 		}
-		recvArg = absArg(callee.absOf(callee.recv), sel.X)
+		recvArg = strings.Join(absArg(callee.absOf(callee.recv), sel.X), " ")
 	}
 	var pargs []string
 	for i, a := range x.Args {
@@ -669,22 +770,20 @@ func (c *fctx) callTranslated(x *ast.CallExpr, callee *fnInfo) (pre []string, te
 			continue
 		}
 		if r := callee.absOf(p); r != nil {
-			pargs = append(pargs, absArg(r, a))
+			pargs = append(pargs, absArg(r, a)...)
 			continue
 		}
 		if callee.mutated[i] {
 			c.noteMut(x)
-			var n string
-			switch {
-			case isByteSlice(p.Type()):
-				id, ok := ast.Unparen(a).(*ast.Ident)
-				if !ok {
-					c.failf(a, "argument for a parameter the callee stores into must be a []byte parameter of the caller")
-				}
-				n = c.mutParamName(id)
-			default:
-				n = c.threadedArg(a, p)
+			if isByteSlice(p.Type()) {
+				pp, arg, pat, po := c.mutSliceArg(a)
+				pre = append(pre, pp...)
+				pargs = append(pargs, arg)
+				pats = append(pats, pat)
+				post = append(post, po...)
+				continue
 			}
+			n := c.threadedArg(a, p)
 			pargs = append(pargs, c.readVar(n))
 			pats = append(pats, c.assignVar(n))
 			continue
@@ -718,7 +817,9 @@ func (c *fctx) callTranslated(x *ast.CallExpr, callee *fnInfo) (pre []string, te
 	if recvArg != "" {
 		args = append(args, recvArg)
 	}
+	args = append(args, recvArgs...)
 	args = append(args, pargs...)
+	args = append(args, c.calleeOracles(x, callee)...)
 	for i := 0; i < callee.flatResultCount(); i++ {
 		t := c.fresh()
 		pats = append(pats, t)
@@ -730,6 +831,7 @@ func (c *fctx) callTranslated(x *ast.CallExpr, callee *fnInfo) (pre []string, te
 	}
 	all := append(append([]string{name}, head...), args...)
 	pre = append(pre, fmt.Sprintf("do %s <- %s;", pat, strings.Join(all, " ")))
+	pre = append(pre, post...)
 	return pre, terms
 }
 
@@ -787,6 +889,7 @@ type loopFrame struct {
 	free       []string // variables declared outside that are only read: arguments
 	usesRec    bool     // the body calls the enclosing function: the loop takes it as rec_
 	canExit    bool     // has a condition or a break: can end without returning from the function
+	oracle     string   // a range statement over a map: the name of its order oracle
 	done       bool
 }
 
@@ -803,6 +906,10 @@ func (c *fctx) sortVars(ns []string) {
 // the variables declared outside the loop that its condition, post statement or body may assign
 // (found syntactically; assignVar checks during the translation that none was missed)
 func (c *fctx) carriedOf(fr *loopFrame, s *ast.ForStmt) []string {
+	return c.carriedOfNodes(fr, []ast.Node{s.Cond, s.Post, s.Body})
+}
+
+func (c *fctx) carriedOfNodes(fr *loopFrame, nodes []ast.Node) []string {
 	set := map[string]bool{}
 	var add func(e ast.Expr)
 	add = func(e ast.Expr) {
@@ -814,6 +921,13 @@ func (c *fctx) carriedOf(fr *loopFrame, s *ast.ForStmt) []string {
 			o := c.info.Uses[x]
 			if o == nil {
 				o = c.info.Defs[x]
+			}
+			if v, ok := o.(*types.Var); ok && c.f.elemView[v] {
+				fs, _ := elemViewStruct(v)
+				for _, fv := range fs {
+					set[c.fieldName(v, fv)] = true
+				}
+				return
 			}
 			if v, ok := o.(*types.Var); ok {
 				if _, isG := c.pkgLevelVar(v); !isG {
@@ -843,10 +957,23 @@ func (c *fctx) carriedOf(fr *loopFrame, s *ast.ForStmt) []string {
 		case *ast.AssignStmt:
 			for _, l := range x.Lhs {
 				add(l)
+				if ix, ok := ast.Unparen(l).(*ast.IndexExpr); ok && c.isRegionExpr(ix.X) {
+					_, _, r := c.regionExprQuiet(ix.X)
+					if r != nil {
+						set[c.nameOf(r.v)] = true
+					}
+				}
 			}
 		case *ast.IncDecStmt:
 			add(x.X)
 		case *ast.CallExpr:
+			if len(x.Args) == 2 && c.isRegionExpr(x.Args[0]) {
+				if fn := c.calleeFunc(x); fn != nil && putLib[fn.FullName()] != 0 {
+					if _, _, r := c.regionExprQuiet(x.Args[0]); r != nil {
+						set[c.nameOf(r.v)] = true
+					}
+				}
+			}
 			var id *ast.Ident
 			switch fe := ast.Unparen(x.Fun).(type) {
 			case *ast.Ident:
@@ -873,6 +1000,11 @@ func (c *fctx) carriedOf(fr *loopFrame, s *ast.ForStmt) []string {
 							add(x.Args[j])
 						}
 					}
+					if c.sameRecvCall(x, callee) {
+						for _, fv := range callee.recvFields {
+							set[c.fieldName(c.f.recvStruct, fv)] = true
+						}
+					}
 					if sel, ok := ast.Unparen(x.Fun).(*ast.SelectorExpr); ok && callee.recv != nil {
 						add(sel.X)
 					}
@@ -885,7 +1017,7 @@ func (c *fctx) carriedOf(fr *loopFrame, s *ast.ForStmt) []string {
 		}
 		return true
 	}
-	for _, n := range []ast.Node{s.Cond, s.Post, s.Body} {
+	for _, n := range nodes {
 		if n != nil && !isNilNode(n) {
 			ast.Inspect(n, visit)
 		}
@@ -978,7 +1110,9 @@ func (c *fctx) loopCall(fr *loopFrame, lf string) string {
 	if c.f.needsRFuel {
 		parts = append(parts, "rfuel")
 	}
-	parts = append(parts, "fuel")
+	if c.f.needsFuel {
+		parts = append(parts, "fuel")
+	}
 	for _, g := range c.f.globals {
 		parts = append(parts, globalName(g))
 	}
@@ -1048,7 +1182,9 @@ func (c *fctx) translateLoop(s *ast.ForStmt) *loopFrame {
 	if c.f.needsRFuel {
 		binders = append(binders, "(rfuel : nat)")
 	}
-	binders = append(binders, "(fuel : nat)")
+	if c.f.needsFuel {
+		binders = append(binders, "(fuel : nat)")
+	}
 	for _, g := range c.f.globals {
 		if isIntTable(g.Type()) {
 			binders = append(binders, fmt.Sprintf("(%s : list Z)", globalName(g)))
@@ -1135,6 +1271,9 @@ func (t *tr) analyseExt(f *fnInfo, seen map[*fnInfo]bool) {
 	info := f.pkg.TypesInfo
 	sig := f.obj.Type().(*types.Signature)
 	f.owned, f.addrOf = map[*types.Var]bool{}, map[*types.Var]bool{}
+	f.nilable = map[*types.Var]bool{}
+	f.dirtOwned = map[*types.Var]bool{}
+	defer t.analyseRegions(f)
 	f.nErrCtor, f.errCtorIx = map[string]int{}, map[ast.Node]int{}
 	if recv := sig.Recv(); recv != nil {
 		rt := recv.Type()
@@ -1162,10 +1301,13 @@ func (t *tr) analyseExt(f *fnInfo, seen map[*fnInfo]bool) {
 				}
 				if ok {
 					f.recvStruct, f.recvFields = recv, fs
+				} else {
+					t.analyseROReceiver(f, recv, fs)
 				}
 			}
 		}
 	}
+	t.analyseElemViews(f)
 	used := map[types.Object]bool{}
 	ast.Inspect(f.decl.Body, func(n ast.Node) bool {
 		if id, ok := n.(*ast.Ident); ok {
@@ -1195,6 +1337,21 @@ func (t *tr) analyseExt(f *fnInfo, seen map[*fnInfo]bool) {
 		switch x := n.(type) {
 		case *ast.ForStmt:
 			f.hasLoop, f.needsFuel = true, true
+		case *ast.RangeStmt:
+			f.hasRange = true
+		case *ast.BinaryExpr:
+			// w == nil / w != nil for an abstract object w: it gets a nil flag
+			if x.Op == token.EQL || x.Op == token.NEQ {
+				for _, pr := range [][2]ast.Expr{{x.X, x.Y}, {x.Y, x.X}} {
+					if id, ok := ast.Unparen(pr[1]).(*ast.Ident); ok {
+						if _, isNil := info.Uses[id].(*types.Nil); isNil {
+							if root, path := absPathOf(f, info, pr[0]); root != nil && path == "" {
+								f.nilable[root.v] = true
+							}
+						}
+					}
+				}
+			}
 		case *ast.AssignStmt:
 			if x.Tok == token.DEFINE && len(x.Lhs) == 1 && len(x.Rhs) == 1 {
 				if id, ok := x.Lhs[0].(*ast.Ident); ok {
@@ -1204,6 +1361,14 @@ func (t *tr) analyseExt(f *fnInfo, seen map[*fnInfo]bool) {
 								if v, ok := info.Defs[id].(*types.Var); ok && isByteSlice(v.Type()) {
 									cand[v] = true
 								}
+							}
+						}
+						// x := dirtmake.Bytes(n, n): a fresh buffer of arbitrary content; it may also be handed
+						// (whole or as x[a:]) to callees and methods that store into it, and be returned
+						if fn := calleeOf(info, call); fn != nil && dirtFns[fn.FullName()] {
+							if v, ok := info.Defs[id].(*types.Var); ok && isByteSlice(v.Type()) {
+								cand[v] = true
+								f.dirtOwned[v] = true
 							}
 						}
 					}
@@ -1263,6 +1428,40 @@ func (t *tr) analyseExt(f *fnInfo, seen map[*fnInfo]bool) {
 		}
 		return true
 	})
+	// the extra uses of a dirtmake buffer: an argument x / x[a:] of a call, an operand of return
+	ast.Inspect(f.decl.Body, func(n ast.Node) bool {
+		mark := func(e ast.Expr) {
+			e = ast.Unparen(e)
+			if se, ok := e.(*ast.SliceExpr); ok && se.High == nil && se.Max == nil {
+				e = ast.Unparen(se.X)
+			}
+			if id, ok := e.(*ast.Ident); ok {
+				if v, ok := info.Uses[id].(*types.Var); ok && f.dirtOwned[v] {
+					allowed[id] = true
+				}
+			}
+		}
+		switch x := n.(type) {
+		case *ast.CallExpr:
+			if fid, ok := ast.Unparen(x.Fun).(*ast.Ident); ok {
+				if _, isB := info.Uses[fid].(*types.Builtin); isB {
+					return true
+				}
+			}
+			for _, a := range x.Args {
+				mark(a)
+			}
+		case *ast.ReturnStmt:
+			for _, r := range x.Results {
+				if id, ok := ast.Unparen(r).(*ast.Ident); ok {
+					if v, ok := info.Uses[id].(*types.Var); ok && f.dirtOwned[v] {
+						allowed[id] = true
+					}
+				}
+			}
+		}
+		return true
+	})
 	ast.Inspect(f.decl.Body, func(n ast.Node) bool {
 		if id, ok := n.(*ast.Ident); ok {
 			if v, ok := info.Uses[id].(*types.Var); ok && cand[v] && !allowed[id] {
@@ -1275,6 +1474,9 @@ func (t *tr) analyseExt(f *fnInfo, seen map[*fnInfo]bool) {
 }
 
 func translatableParam(t types.Type) bool {
+	if structParamOK(t) {
+		return true
+	}
 	if isErrorIface(t) || isBool(t) || isBytesLike(t) || isFloat64(t) || isAbstractType(t) {
 		return true
 	}
@@ -1303,6 +1505,9 @@ func (t *tr) mapAbstract(f, callee *fnInfo, x *ast.CallExpr) {
 		}
 		for _, m := range r.methods {
 			root.addMethod(joinPath(path, m.path), m.fn)
+		}
+		if r.poke && path == "" {
+			root.poke = true
 		}
 	}
 	if callee.recv != nil {
@@ -1386,6 +1591,9 @@ func (t *tr) checkPointerCallSites(f *fnInfo) string {
 // ---------- a pointer receiver *T for a struct T of translatable fields ----------
 
 func isEmptyStruct(t types.Type) bool {
+	if t == nil { // the blank identifier
+		return false
+	}
 	if _, isTP := t.(*types.TypeParam); isTP {
 		return false
 	}
@@ -1439,7 +1647,18 @@ func (c *fctx) bindLine(lhs ast.Expr, name, term string) string {
 var externalFns = map[string]string{
 	"(" + modPath + "protocol/thrift.BinaryProtocol).Skip": "x_thrift_Binary_Skip",
 	"semtest/ext.Calc": "x_ext_Calc", // the translator's differential self-test (testdata/ext)
+	// uninitialised memory: the content is an oracle (at most one call per function, see dirtFn)
+	dirtFn:              "x_dirtmake_Bytes",
+	"semtest/ext.Dirty": "x_ext_Dirty",
+	// the hash function of a strmap instance (its seed, a field, is not an argument of the model)
+	modPath + "internal/hash/maphash.String": "x_maphash_String",
+	"semtest/ext.Keyed":                      "x_ext_Keyed",
 }
+
+const dirtFn = "github.com/bytedance/gopkg/lang/dirtmake.Bytes"
+
+// functions whose result is freshly allocated memory of arbitrary content
+var dirtFns = map[string]bool{dirtFn: true, "semtest/ext.Dirty": true}
 
 func (f *fnInfo) addExtern(fn *types.Func) {
 	for _, e := range f.externs {
@@ -1457,6 +1676,9 @@ func (c *fctx) extBinders(f *fnInfo) []string {
 		sig := e.Type().(*types.Signature)
 		var parts, rts []string
 		for i := 0; i < sig.Params().Len(); i++ {
+			if extDropped[e.FullName()][i] {
+				continue
+			}
 			parts = append(parts, c.coqType(c.f.decl, sig.Params().At(i).Type()))
 		}
 		for i := 0; i < sig.Results().Len(); i++ {
@@ -1480,8 +1702,24 @@ func (c *fctx) callExternal(x *ast.CallExpr, fn *types.Func, name string) (pre [
 	if x.Ellipsis.IsValid() || sig.Variadic() {
 		c.failf(x, "variadic call")
 	}
+	if dirtFns[fn.FullName()] {
+		// the oracle is a function of the sizes: two calls would be given the same content
+		if c.dirtCall != nil && c.dirtCall != x {
+			c.failf(x, "a second allocation of uninitialised memory in one function (the content oracle is a function of the sizes)")
+		}
+		if len(c.loops) > 0 {
+			c.failf(x, "allocation of uninitialised memory inside a loop")
+		}
+		c.dirtCall = x
+	}
 	var args []string
 	for i, a := range x.Args {
+		if extDropped[fn.FullName()][i] {
+			if !c.droppedArgOK(a) {
+				c.failf(a, "this argument of %s must be a field of the read-only receiver (it is not an argument of the model)", fn.Name())
+			}
+			continue
+		}
 		if c.isMutatedParam(a) {
 			c.failf(a, "argument of an external function that is stored into elsewhere")
 		}
